@@ -510,6 +510,12 @@ func (s *Store) removeODS(height uint64, datahash share.DataHash) error {
 
 	// if datahash is empty, we don't need to remove the ODS file, only the hardlink
 	if datahash.IsEmptyEDS() {
+		// a reader may have loaded the accessor into the cache after it was dropped above and
+		// before the link was removed; drop it again now that the height can no longer be opened
+		// (for other blocks removeQ4 does this)
+		if err := s.cache.Remove(height); err != nil {
+			return fmt.Errorf("removing from cache: %w", err)
+		}
 		return nil
 	}
 
